@@ -172,7 +172,10 @@ fn transformed<F: MathFunction + Function<Trace = VmTrace> + Clone>(cx: &mut Cx,
         let mut ctx = Context::new();
         let (x, y, z) = (ctx.x(), ctx.y(), ctx.z());
         let mut pool = vec![x, y, z];
-        for _ in 0..(2 + rng.below(10)) {
+        // every sixth case: a strong perspective row whose w changes sign inside the box (the transformed box is unbounded:
+        // the projective divide has a pole), under a very simple expression so that nothing else explains a NaN interval
+        let pole = k % 6 == 5;
+        for _ in 0..(if pole { rng.below(3) } else { 2 + rng.below(10) }) {
             let a = pool[rng.below(pool.len())];
             let t = if rng.below(2) == 0 {
                 let b = if rng.below(3) == 0 { ctx.constant(rng.range(-2.0, 2.0)) } else { pool[rng.below(pool.len())] };
@@ -199,7 +202,17 @@ fn transformed<F: MathFunction + Function<Trace = VmTrace> + Clone>(cx: &mut Cx,
                 m[(3, 3)] = rng.range(0.5, 2.0);
             }
         }
-        let bx: Vec<Interval> = (0..3).map(|_| { let c = rng.range(-2.0, 2.0); let w = if rng.below(4) == 0 { 0.0 } else { rng.range(0.0, 1.0) }; Interval::new(c - w, c + w) }).collect();
+        let mut bx: Vec<Interval> = (0..3).map(|_| { let c = rng.range(-2.0, 2.0); let w = if rng.below(4) == 0 { 0.0 } else { rng.range(0.0, 1.0) }; Interval::new(c - w, c + w) }).collect();
+        if pole {
+            let j = rng.below(3);
+            let pz = rng.range(0.4, 1.5) * if rng.below(2) == 0 { 1.0 } else { -1.0 };
+            for c in 0..4 {
+                m[(3, c)] = if c == j { pz } else if c == 3 { 1.0 } else { 0.0 };
+            }
+            // w = 1 + pz * v vanishes at v = -1 / pz: put that value strictly inside the box on axis j
+            let v0 = -1.0 / pz;
+            bx[j] = Interval::new(v0 - rng.range(0.2, 1.5), v0 + rng.range(0.2, 1.5));
+        }
         let pts = box_samples(rng, &bx, 6);
         let use_mat = k % 4 != 3;
         let mat = if use_mat { Some(&m) } else { None };
@@ -593,6 +606,7 @@ fn main() {
         let ap = inst.random_abstract([6, 14, 30, 60][k % 4], [3, 6, 10, 14, 20][k % 5], 3);
         progs.push((inst.instantiate(&ap), mode));
     }
+    progs.extend(pgen::directed_programs().into_iter().map(|(p, m, _)| (p, m)));
     for (k, (p, _mode)) in progs.iter().enumerate() {
         let excluded = has_atan2(p);
         let vmf = vm_fn::<255>(p).unwrap();
